@@ -3,6 +3,8 @@
    the same format as harness/cmd/lalprobe/c03.go. *)
 open Conv
 module G = GroupAdmission
+module S = GroupRtspShell
+module A = GroupApiRequest
 
 let int_tok s = (* n5 = -5 *)
   if String.length s > 0 && s.[0] = 'n' then - (int_of_string (String.sub s 1 (String.length s - 1)))
@@ -113,25 +115,107 @@ let parse_cfg (s : string) : G.config * G.fixes =
   let fx = if get "tree" "fixed" = "pinned" then G.pinned_tree else G.fixed_tree in
   (cf, fx)
 
+(* ap2.S.N.M[.deny] / ds2.S.N.M[.deny]: a further ANNOUNCE / DESCRIBE on the command connection of session N *)
+let parse_cevent (op : string) : S.cevent option =
+  let f = Array.of_list (String.split_on_char '.' op) in
+  let deny = Array.length f > 4 && f.(4) = "deny" in
+  match f.(0) with
+  | "ap2" -> Some (S.CAnnounce (n_of f.(1), n_of f.(2), n_of f.(3), deny))
+  | "ds2" -> Some (S.CDescribe (n_of f.(1), n_of f.(2), n_of f.(3), deny))
+  | _ -> (match parse_event op with Some e -> Some (S.CE e) | None -> None)
+
+(* rp2.S.N / rs2.S.N: a further publish / play command naming stream S on the connection of RTMP session N *)
+let parse_cevent (op : string) : S.cevent option =
+  let f = Array.of_list (String.split_on_char '.' op) in
+  match f.(0) with
+  | "rp2" -> Some (S.CRtmpCmd (n_of f.(1), n_of f.(2), true))
+  | "rs2" -> Some (S.CRtmpCmd (n_of f.(1), n_of f.(2), false))
+  | _ -> parse_cevent op
+
+(* ---- requests through the HTTP API: a numeric field is a (absent), z (null), q (not a number) or an integer token ---- *)
+let jfield (t : string) : A.jfield =
+  match t with "a" -> A.JAbsent | "z" -> A.JNull | "q" -> A.JBad | _ -> A.JInt (z_of t)
+let z_tok z = let i = int_of_z z in if i < 0 then "n" ^ string_of_int (- i) else string_of_int i
+let opt_n t = if t = "a" then None else Some (n_of t)
+let has_flag (fl : string) (c : char) = String.contains fl c
+
+(* hpull.S.T.R.A.M.FLAGS   start_relay_pull, body fields pull_timeout_ms / pull_retry_num / auto_stop_pull_after_no_out_ms /
+                           rtsp_mode; FLAGS: - or letters r (rtsp:// url) u (no url key) n (no stream_name key)
+   hxpull.S|a              stop_relay_pull (a: no stream_name parameter)
+   hkick.S|a.NAME|a        kick_session
+   hpp.S|a.SID.P.T.F       start_rtp_pub, body fields port / timeout_ms / is_tcp_flag
+   result: the call's result, then ~ and the settings the group took; 1002 = param missing, nothing called *)
+let parse_api (op : string) : (A.api_call * string) option =
+  let f = Array.of_list (String.split_on_char '.' op) in
+  try
+    match f.(0) with
+    | "hpull" ->
+      let fl = f.(6) in
+      let b = { A.pb_url = not (has_flag fl 'u'); A.pb_name = not (has_flag fl 'n');
+                A.pb_timeout = jfield f.(2); A.pb_retry = jfield f.(3); A.pb_autostop = jfield f.(4); A.pb_mode = jfield f.(5) } in
+      let suffix = match A.pull_request b with
+        | Some r -> "~" ^ String.concat ":" [z_tok r.A.pr_timeout; z_tok r.A.pr_retry; z_tok r.A.pr_autostop; z_tok r.A.pr_mode]
+        | None -> "" in
+      Some (A.AStartPull (n_of f.(1), b, not (has_flag fl 'r')), suffix)
+    | "hxpull" -> Some (A.AStopPull (opt_n f.(1)), "")
+    | "hkick" ->
+      let t = if f.(2) = "a" then None else
+          let name = f.(2) in
+          let body = String.sub name 1 (String.length name - 1) in
+          if name.[0] = 'p' then
+            (match String.split_on_char '_' body with
+             | [s; i] -> Some (G.KAtt (n_of s, n_of i))
+             | _ -> failwith "bad attempt name")
+          else Some (G.KConn (n_of body)) in
+      Some (A.AKick (opt_n f.(1), t), "")
+    | "hpp" ->
+      let suffix = match A.rtp_request (jfield f.(3)) (jfield f.(4)) (jfield f.(5)) with
+        | Some r -> "~" ^ string_of_int (int_of_z r.A.rr_timeout / 1000) ^ ":" ^ (if int_of_z r.A.rr_tcp <> 0 then "1" else "0")
+        | None -> "" in
+      Some (A.AStartRtpPub (opt_n f.(1), n_of f.(2), jfield f.(3), jfield f.(4), jfield f.(5)), suffix)
+    | _ -> None
+  with Invalid_argument _ -> None
+
 let run_case cfg ops =
   let (cf, fx) = parse_cfg cfg in
-  let st = ref G.init_state in
+  (* the RTSP shell follows the repaired tree unless the pinned one (or shell=old) is asked for *)
+  let fsh = not (fx == G.pinned_tree) && not (String.length cfg >= 9 &&
+              (let rec has i = i + 9 <= String.length cfg && (String.sub cfg i 9 = "shell=old" || has (i + 1)) in has 0)) in
+  let st = ref S.init_cstate in
   let outs = Stdlib.List.map (fun op ->
-      match parse_event op with
-      | None -> "unknown-op"
-      | Some e ->
+      (* a request through the HTTP API is the event the handler turns it into, or nothing at all *)
+      let api = parse_api op in
+      let pc = match api with
+        | Some (c, _) -> (match A.api_event c with Some e -> Some (S.CE e) | None -> None)
+        | None -> parse_cevent op in
+      match pc with
+      | None -> if api <> None then "1002/" ^ show_view !st.S.cs_base ^ "/-" else "unknown-op"
+      | Some ce ->
         (* attempt index 0 = the latest attempt of that stream *)
         let latest s i = if int_of_n i <> 0 then i else
-            (match G.lookup s !st.G.st_cnt with Some c -> c | None -> i) in
-        let e = match e with
-          | G.EPullSucc (s, i) -> G.EPullSucc (s, latest s i)
-          | G.EPullFail (s, i) -> G.EPullFail (s, latest s i)
-          | G.EPullDone (s, i) -> G.EPullDone (s, latest s i)
-          | _ -> e in
-        let ((st1, r), ns) = G.step fx cf !st e in
+            (match G.lookup s !st.S.cs_base.G.st_cnt with Some c -> c | None -> i) in
+        let ce = match ce with
+          | S.CE (G.EPullSucc (s, i)) -> S.CE (G.EPullSucc (s, latest s i))
+          | S.CE (G.EPullFail (s, i)) -> S.CE (G.EPullFail (s, latest s i))
+          | S.CE (G.EPullDone (s, i)) -> S.CE (G.EPullDone (s, latest s i))
+          | _ -> ce in
+        let shown = match ce with
+          | S.CE e -> e
+          | S.CAnnounce (s, _, n, d) -> G.ERtspPub (s, n, d)
+          | S.CDescribe (s, _, n, d) -> G.ERtspSub (s, n, d)
+          | S.CRtmpCmd (s, n, _) -> G.ERtmpPub (s, n, false) in
+        let suffix = match api with
+          | Some (A.AStartRtpPub _, sfx) -> sfx   (* appended below only when the publisher was accepted *)
+          | Some (_, sfx) -> sfx
+          | None -> "" in
+        let ((st1, r), ns) = S.cstep fsh fx cf !st ce in
         st := st1;
         let ev = if ns = [] then "-" else String.concat "+" (Stdlib.List.map show_notif ns) in
-        show_result e r ^ "/" ^ show_view st1 ^ "/" ^ ev)
+        let res = show_result shown r in
+        let suffix = match api with
+          | Some (A.AStartRtpPub _, _) when res <> "0" -> ""
+          | _ -> suffix in
+        res ^ suffix ^ "/" ^ show_view st1.S.cs_base ^ "/" ^ ev)
       (String.split_on_char ',' ops) in
   String.concat ";" outs
 
